@@ -26,6 +26,7 @@ func init() {
 			"R3 exhaustiveness: the evaluator's step-kind switch covers every protopath.StepKind constant; the parser's token switch covers every token-kind constant of the package except those compared elsewhere (end of input) and has an error default; ParsePath returns a path only on a path dominated by the end-of-input test and a true state predicate. " +
 			"R5 raw renderings: InspectPayload / InspectSignature hand the field bytes (same access path as the endorsement field) to WriteBytesForm, and WriteBytesForm's raw arm writes its parameter itself. " +
 			"R6 numeral agreement (siblings): every strconv conversion of the stored text of a number token (list index, each map-key kind) reads it in the same base, so one spelling denotes one number whatever the step kind. " +
+			"R7 parse width: the bit size given to strconv.ParseInt/ParseUint for a number literal (a constant, or a small helper evaluated for the key kind of the enclosing switch arm) is not larger than the integer type the result is converted to, so out-of-range literals are refused rather than truncated. " +
 			"Not covered: value equality with a field-by-field walk, panics inside protoreflect for ill-typed hand-built paths, scanner progress (regular-expression reasoning), agreement of parser and evaluator descriptor transfers beyond R1.",
 		Assumptions: []string{"go/types, go/ssa", "protoreflect accessors"},
 		Run:         runC19,
@@ -356,6 +357,71 @@ func runC19(c *Ctx) {
 		c.S.Floor("R6", "integer conversions of a stored number literal in parsepath", 5, nSites)
 	}
 
+	// ---- R7 parse width ≤ conversion width ----
+	// strconv.ParseInt/ParseUint(lit, base, bits) accepts every value of `bits` bits; converting the
+	// result to a narrower integer type drops the high bits silently, so a literal outside the key's
+	// range would address another element instead of being refused.
+	{
+		nConv := 0
+		for _, f := range c.P.RepoFunctions() {
+			if load.RelPkg(f) != "gcetcbendorsement/parsepath" || c.isTestFunc(f) {
+				continue
+			}
+			for _, call := range callsIn(f, func(call ssa.CallInstruction) bool {
+				return calleeIs(call, "strconv.ParseInt") || calleeIs(call, "strconv.ParseUint")
+			}) {
+				cv := call.Value()
+				if cv == nil || len(call.Common().Args) != 3 {
+					continue
+				}
+				var res ssa.Value
+				for _, r := range nonDebugRefs(cv) {
+					if ex, ok := r.(*ssa.Extract); ok && ex.Index == 0 {
+						res = ex
+					}
+				}
+				if res == nil {
+					continue
+				}
+				for _, r := range nonDebugRefs(res) {
+					conv, ok := r.(*ssa.Convert)
+					if !ok {
+						continue
+					}
+					bt, ok := conv.Type().Underlying().(*types.Basic)
+					if !ok || bt.Info()&types.IsInteger == 0 {
+						continue
+					}
+					w := basicBits(bt)
+					if bt.Kind() == types.Int || bt.Kind() == types.Uint {
+						w = 64
+					}
+					nConv++
+					construct := fmt.Sprintf("%s:parse width for %s", load.FuncName(f), bt.Name())
+					bitsArg := call.Common().Args[2]
+					bits, known := constInt(bitsArg)
+					how := "constant"
+					if !known {
+						if hc, ok := bitsArg.(*ssa.Call); ok {
+							bits, known = evalConstHelper(hc)
+							how = "helper " + callName(hc) + " evaluated for the step's key kind"
+						}
+					}
+					if !known {
+						c.S.Unk("R7", construct, c.pos(call.Pos()), "the bit size handed to the parser is not a constant and could not be evaluated")
+						continue
+					}
+					if bits == 0 {
+						bits = 64
+					}
+					c.S.Check(int(bits) <= w, "R7", construct, c.pos(conv.Pos()), fmt.Sprintf("parsed with %d bits (%s), converted to %d bits", bits, how, w),
+						fmt.Sprintf("the literal is parsed as a %d-bit number (%s) and then converted to %d bits: a literal beyond the key's range is not refused, its high bits are dropped and another element is addressed", bits, how, w))
+				}
+			}
+		}
+		c.S.Floor("R7", "integer conversions of parsed number literals in parsepath", 4, nConv)
+	}
+
 	// ---- R5 raw renderings ----
 	wbf := c.fn("R5", "gcetcbendorsement", "WriteBytesForm")
 	for _, row := range []struct{ fn, field string }{{"InspectPayload", "SerializedUefiGolden"}, {"InspectSignature", "Signature"}} {
@@ -485,4 +551,99 @@ func stepArmName(c *Ctx, pos token.Pos, f *ssa.Function) string {
 		return "step"
 	}
 	return best
+}
+
+// possibleConsts: the constants K such that block b is entered only through
+// true edges of `v == K` (a switch arm, possibly with several case values).
+func possibleConsts(b *ssa.BasicBlock, v ssa.Value, depth int) ([]int64, bool) {
+	if depth > 6 || len(b.Preds) == 0 {
+		return nil, false
+	}
+	var out []int64
+	for _, p := range b.Preds {
+		switch last := p.Instrs[len(p.Instrs)-1].(type) {
+		case *ssa.If:
+			bo, ok := last.Cond.(*ssa.BinOp)
+			if !ok || bo.Op != token.EQL || p.Succs[0] != b || stripConv(bo.X) != stripConv(v) {
+				return nil, false
+			}
+			k, ok := constInt(bo.Y)
+			if !ok {
+				return nil, false
+			}
+			out = append(out, k)
+		case *ssa.Jump:
+			sub, ok := possibleConsts(p, v, depth+1)
+			if !ok {
+				return nil, false
+			}
+			out = append(out, sub...)
+		default:
+			return nil, false
+		}
+	}
+	return out, len(out) > 0
+}
+
+// evalConstHelper folds a call to a small repo function whose result depends
+// only on comparisons of one parameter with constants, for every constant the
+// argument can have at the call site; returns the largest result.
+func evalConstHelper(call *ssa.Call) (int64, bool) {
+	g := call.Call.StaticCallee()
+	if g == nil || g.Blocks == nil || len(g.Params) != len(call.Call.Args) || len(g.Params) != 1 {
+		return 0, false
+	}
+	arg := call.Call.Args[0]
+	var vals []int64
+	if k, ok := constInt(arg); ok {
+		vals = []int64{k}
+	} else if ks, ok := possibleConsts(call.Block(), arg, 0); ok {
+		vals = ks
+	} else {
+		return 0, false
+	}
+	best := int64(-1)
+	for _, k := range vals {
+		b := g.Blocks[0]
+		var res int64
+		done := false
+		for steps := 0; steps < 64 && !done; steps++ {
+			switch last := b.Instrs[len(b.Instrs)-1].(type) {
+			case *ssa.If:
+				bo, ok := last.Cond.(*ssa.BinOp)
+				if !ok || (bo.Op != token.EQL && bo.Op != token.NEQ) || stripConv(bo.X) != ssa.Value(g.Params[0]) {
+					return 0, false
+				}
+				c, ok := constInt(bo.Y)
+				if !ok {
+					return 0, false
+				}
+				if (c == k) == (bo.Op == token.EQL) {
+					b = b.Succs[0]
+				} else {
+					b = b.Succs[1]
+				}
+			case *ssa.Jump:
+				b = b.Succs[0]
+			case *ssa.Return:
+				if len(last.Results) != 1 {
+					return 0, false
+				}
+				r, ok := constInt(last.Results[0])
+				if !ok {
+					return 0, false
+				}
+				res, done = r, true
+			default:
+				return 0, false
+			}
+		}
+		if !done {
+			return 0, false
+		}
+		if res > best {
+			best = res
+		}
+	}
+	return best, best >= 0
 }
